@@ -79,9 +79,15 @@ void PolicyBase::open( bool from_reopen)
 {
 
    const auto  filename = filename::Builder::filename( mFilenameDefinition);
+   // an existing log file (e.g. from before a restart of the process) must be
+   // continued, not emptied; only the file that is opened after the
+   // generations were rolled starts empty
+   const auto  mode = from_reopen
+      ? (std::ios_base::out | std::ios_base::trunc)
+      : (std::ios_base::out | std::ios_base::app | std::ios_base::ate);
 
 
-   mFile.open( filename, std::ios_base::out | std::ios_base::ate);
+   mFile.open( filename, mode);
 
    if (!mFile || !mFile.is_open())
    {
@@ -94,7 +100,7 @@ void PolicyBase::open( bool from_reopen)
          common::FileOperations::mkdir( path);
 
          // try again
-         mFile.open( filename, std::ios_base::out | std::ios_base::ate);
+         mFile.open( filename, mode);
       } // end if
    } // end if
 
